@@ -76,7 +76,7 @@ def constructible(m):
     return True
 
 
-def construct(m, style=0):
+def construct(m, style=0, big_endian=False):
     """build the message with the real constructors; returns the message object"""
     f = {ATTR[x[0]][0]: (int.from_bytes(bytes(x[2]), 'little') if x[1] == ('u',) else bytes(x[2]).decode())
          for x in m['fields']}
@@ -84,18 +84,22 @@ def construct(m, style=0):
     body = [wc.to_py(t, v, False, style) for t, v in zip(m['bodyT'], m['body'])] if sig else None
     message.DBusMessage._nextSerial = m['serial']
     t = m['type']
+    cls = {1: message.MethodCallMessage, 2: message.MethodReturnMessage, 3: message.ErrorMessage, 4: message.SignalMessage}[t]
+    if big_endian:
+        # the documented way to send in the other byte order: the `endian` attribute
+        cls = type('BigEndian' + cls.__name__, (cls,), {'endian': ord('B')})
     if t == 1:
-        return message.MethodCallMessage(f['path'], f['member'], interface=f.get('interface'),
+        return cls(f['path'], f['member'], interface=f.get('interface'),
                                          destination=f.get('destination'), signature=sig, body=body,
                                          expectReply=not m['nr'], autoStart=not m['na'])
     if t == 2:
-        return message.MethodReturnMessage(f['reply_serial'], body=body, destination=f.get('destination'),
+        return cls(f['reply_serial'], body=body, destination=f.get('destination'),
                                            signature=sig)
     if t == 3:
-        return message.ErrorMessage(f['error_name'], f['reply_serial'], destination=f.get('destination'),
+        return cls(f['error_name'], f['reply_serial'], destination=f.get('destination'),
                                     signature=sig, body=body, sender=f.get('sender'))
-    return message.SignalMessage(f['path'], f['member'], f['interface'], destination=f.get('destination'),
-                                 signature=sig, body=body)
+    return cls(f['path'], f['member'], f['interface'], destination=f.get('destination'),
+               signature=sig, body=body)
 
 
 def fd_messages(rng, n):
@@ -269,8 +273,8 @@ def run(tier, seed):
         m = rand_msg(rng)
         if constructible(m):
             try:
-                mo = construct(m, i)
-                own.append(({'c': {'m': m, 'le': True, 'sigpos': 0}, 'raw': tuple(mo.rawMessage), 'rec': {},
+                mo = construct(m, i, big_endian=(i % 3 == 0))
+                own.append(({'c': {'m': m, 'le': i % 3 != 0, 'sigpos': 0}, 'raw': tuple(mo.rawMessage), 'rec': {},
                              'ser': {'start': mo.serial, 'after': message.DBusMessage._nextSerial}}, m))
             except Exception as ex:
                 chk.violation('constructor raised %s for a random constructible message' % type(ex).__name__,
